@@ -812,6 +812,7 @@ void reb_integrator_trace_part2(struct reb_simulation* const r){
     
     // Create copy of all particle to allow for the step to be rejected.
     memcpy(ri_trace->particles_backup, r->particles, N*sizeof(struct reb_particle));
+    const struct reb_vec3d com_pos_backup = ri_trace->com_pos;
                         
     // This will be set to 1 if a collision occured.
     ri_trace->force_accept = 0;
@@ -829,6 +830,8 @@ void reb_integrator_trace_part2(struct reb_simulation* const r){
             // New encounters were found. Will reject the step.
             // Revert particles to the beginning of the step.
             memcpy(r->particles, ri_trace->particles_backup, N*sizeof(struct reb_particle));
+            // The rejected attempt has already moved the centre of mass.
+            ri_trace->com_pos = com_pos_backup;
 
             // Do step again
             reb_integrator_trace_step(r);
